@@ -70,6 +70,33 @@ def make_form(form, g, T, topo):
     raise ValueError(form)
 
 
+def anc_within(g: GSpec, T, C):
+    """Ancestors (inclusive) of C in the sub-graph induced by T."""
+    T = set(T)
+    out, stack = set(C), list(C)
+    while stack:
+        v = stack.pop()
+        for p in g.parents(v):
+            if p in T and p not in out:
+                out.add(p)
+                stack.append(p)
+    return out
+
+
+def run_lemma3(A, T, qT, topo):
+    from y0.algorithm.tian_id import compute_ancestral_set_q_value
+    from y0.dsl import Variable
+
+    return compute_ancestral_set_q_value(ancestral_set=frozenset(Variable(n) for n in A), subgraph_variables=frozenset(Variable(n) for n in T), subgraph_probability=qT, graph_topo=[Variable(n) for n in topo])
+
+
+def run_lemma4(D, A, qA, topo):
+    from y0.algorithm.tian_id import compute_c_factor
+    from y0.dsl import Variable
+
+    return compute_c_factor(district=[Variable(n) for n in topo if n in D], subgraph_variables={Variable(n) for n in A}, subgraph_probability=qA, graph_topo=[Variable(n) for n in topo])
+
+
 def run_identify(g: GSpec, C, T, qT, topo):
     from y0.algorithm.tian_id import identify_district_variables
     from y0.dsl import Variable
@@ -136,6 +163,31 @@ def work(job):
                 continue
             r = decide(g, qT, T, model, den, timeout_ms)
             res.append(dict(rec0, kind="lemma1", status="ok", out=str(qT), **r))
+            # second clause of the property: Q of EVERY district of an ancestral set A of G_T, computed from Q[A]
+            # (Lemma 3, then Lemma 4) - IDENTIFY itself only ever asks for the district that contains C
+            seen_A = set()
+            for C in single_district_subsets(g, T):
+                A = frozenset(anc_within(g, T, C))
+                if A == frozenset(T) or A in seen_A:
+                    continue
+                seen_A.add(A)
+                recA = dict(rec0, A=sorted(A))
+                try:
+                    qA = run_lemma3(A, T, qT, topo)
+                except Exception as e:  # noqa: BLE001
+                    res.append(dict(recA, kind="lemma3", status="crash", exc=f"{type(e).__name__}: {short(e, 120)}"))
+                    continue
+                r3 = decide(g, qA, A, model, den, timeout_ms)
+                res.append(dict(recA, kind="lemma3", status="ok", out=str(qA), **r3))
+                for D in g.districts(within=set(A)):
+                    recD = dict(recA, C=sorted(D))
+                    try:
+                        e = run_lemma4(D, A, qA, topo)
+                    except Exception as ex:  # noqa: BLE001
+                        res.append(dict(recD, kind="lemma4", status="crash", exc=f"{type(ex).__name__}: {short(ex, 120)}"))
+                        continue
+                    r4 = decide(g, e, D, model, den, timeout_ms)
+                    res.append(dict(recD, kind="lemma4", status="ok", out=str(e), **r4))
             forms = [("lemma1", qT)]
             try:
                 forms.append(("pp-lemma1", make_form("pp-lemma1", g, T, topo)))
@@ -210,7 +262,7 @@ def run() -> int:
     ]
     rep.bounds = {
         "graphs": "quick: ADMGs <=3 nodes (two labellings, every topological order), curated 4-node graphs (2 orders), 1/4 of the 4-node classes (2 orders); thorough: all ADMGs <=4 nodes (two labellings, 2 orders), curated list",
-        "inputs": "every district T; Q[T] = the library's own Lemma-1 product from P(V) and, when every node outside T is an unconfounded root, also the plain conditional P(T | V - T); each form also population-tagged (PP[pi*]), since tian_id.py has separate branches for it (both tiers: every 4-node class with a 3-node district and such a root); every non-empty C subset of T inducing a single district",
+        "inputs": "every district T; Q[T] = the library's own Lemma-1 product from P(V) and, when every node outside T is an unconfounded root, also the plain conditional P(T | V - T); each form also population-tagged (PP[pi*]), since tian_id.py has separate branches for it (both tiers: every 4-node class with a 3-node district and such a root); every non-empty C subset of T inducing a single district; for every proper ancestral set A = An(C) of G_T: Q[A] by Lemma 3 (compute_ancestral_set_q_value) and Q[D] for EVERY district D of G_A by compute_c_factor on that derived expression (Lemma 4)",
         "models": "all positive binary SCMs, one binary latent per bidirected edge; all value assignments of all variables in one query",
         "per_query_timeout_ms": TIMEOUT_MS[t],
         "PYTHONHASHSEED": hashseed(),
@@ -224,9 +276,9 @@ def run() -> int:
         for r in res:
             rep.cases += 1
             g = GSpec.from_json(r["g"])
-            key = f"{g.key()} order={''.join(r['topo']) if all(len(x) == 1 for x in r['topo']) else r['topo']} T={r['T']}" + (f" C={r['C']}" if "C" in r else "") + f" [{r['kind']}{'/' + r['form'] if r.get('form', 'lemma1') != 'lemma1' else ''}]"
+            key = f"{g.key()} order={''.join(r['topo']) if all(len(x) == 1 for x in r['topo']) else r['topo']} T={r['T']}" + (f" A={r['A']}" if "A" in r else "") + (f" C={r['C']}" if "C" in r else "") + f" [{r['kind']}{'/' + r['form'] if r.get('form', 'lemma1') != 'lemma1' else ''}]"
             rep.count(r["kind"] + ":" + r["status"])
-            base = {"property": PROP, "graph": r["g"], "topo": r["topo"], "T": r["T"], "C": r.get("C"), "call": r["kind"], "form": r.get("form"), "hashseed": hashseed()}
+            base = {"property": PROP, "graph": r["g"], "topo": r["topo"], "T": r["T"], "C": r.get("C"), "A": r.get("A"), "call": r["kind"], "form": r.get("form"), "hashseed": hashseed()}
             if r["status"] == "crash":
                 rep.add_violation(Violation(PROP, [key, "crash:" + r["kind"] + ":" + r["exc"].split(":")[0]], f"{r['kind']} raised {r['exc']} for {key}", dict(base, kind="crash", exc=r["exc"])))
                 continue
@@ -263,7 +315,12 @@ def replay(payload: dict) -> int:
     print("graph", g.key(), "order", topo, "T", sorted(T), "C", C)
     try:
         qT = make_form(payload.get("form") or (payload["call"][3:] if payload["call"].startswith("qT-") else "lemma1"), g, T, topo)
-        expr, S = (qT, T) if payload["call"] == "lemma1" or payload["call"].startswith("qT-") else (run_identify(g, set(C), T, qT, topo), set(C))
+        if payload["call"] in ("lemma3", "lemma4"):
+            A = set(payload["A"])
+            qA = run_lemma3(A, T, run_lemma1(g, T, topo), topo)
+            expr, S = (qA, A) if payload["call"] == "lemma3" else (run_lemma4(set(C), A, qA, topo), set(C))
+        else:
+            expr, S = (qT, T) if payload["call"] == "lemma1" or payload["call"].startswith("qT-") else (run_identify(g, set(C), T, qT, topo), set(C))
     except Exception as e:  # noqa: BLE001
         print(f"raised {type(e).__name__}: {e}")
         return 1 if payload["kind"] == "crash" else 0
